@@ -688,9 +688,13 @@ def r04_18(ctx: Ctx, rule: str = "R04.18") -> None:
 
     def ret(name):
         m = ctx.prog.method(c, name)
-        ctx.need(m is not None, f"SevenZipDecompressor.{name} vanished")
+        if m is None:
+            return None, None
         rs = [r for r in walk(m.node) if isinstance(r, ast.Return)]
         return m, (rs[0].value if len(rs) == 1 else None)
+    if any(ctx.prog.method(c, n_) is None for n_ in ("check_crc", "is_finished", "is_exhausted")) or ctx.prog.module("helpers").funcs.get("read_fully") is None:
+        ctx.note(f"{rule}: a predicate of SevenZipDecompressor (or helpers.read_fully) does not exist in this tree; the rules that need it report that")
+        return
     m, v = ret("check_crc")
     ok = shared.same_predicate(v, [({"self.crc": 7, "self.digest": 7}, True), ({"self.crc": 7, "self.digest": 8}, False), ({"self.crc": 0, "self.digest": 0}, True)])
     ctx.check(ok, rule, m, m.node, "check_crc() is `self.crc == self.digest`", f"check_crc() returns `{norm(v) if v is not None else 'nothing'}`: the folder CRC comparison is inverted or void - "
